@@ -199,6 +199,9 @@ async fn write_all(ep: &'static str, mut send: SendStream, key: u64, size: u64, 
         off += n as u64;
         if let Some(r) = reset_after {
             if off >= r {
+                if cfg.reset_delay_ms > 0 {
+                    io::time::delay(Duration::from_millis(cfg.reset_delay_ms)).await;
+                }
                 let _ = send.reset(9u32.into());
                 log(ep, format!("reset {sid}"));
                 return;
